@@ -289,7 +289,8 @@ def render_fixed(stmts, r, opts=None):
     n = len(stmts)
     while i < n:
         while r.random() < o["comments"]:
-            body = r.choice(["a comment", "", " it's", " x = 1", "$omp parallel", " ; & x"])
+            body = r.choice(["a comment", "", " it's", " x = 1", "$omp parallel", " ; & x",
+                             "$    x = 2", "$    continue"])
             c = r.choice(["C", "c", "*", "!"]) + body
             out.lines.append(c)
             out.add_comment(c.strip())
